@@ -380,7 +380,11 @@ def run(ctx: Ctx):
         raise AnchorMissing("limitsOk / incLimits: ok()/inc() calls not found")
     for c in t_chk:
         iff = next((p_ for p_ in _anc(c) if isinstance(p_, ast.If) and any(c is x for x in ast.walk(p_.test))), None)
-        ok = iff is not None and isinstance(iff.test, ast.UnaryOp) and any(
+        def _negated_in(test, c=c):
+            """the call stands negated in the test, alone or as a conjunct (`limits and not limits.ok(..)`)"""
+            parts = test.values if isinstance(test, ast.BoolOp) and isinstance(test.op, ast.And) else [test]
+            return any(isinstance(p_, ast.UnaryOp) and isinstance(p_.op, ast.Not) and any(c is x for x in ast.walk(p_.operand)) for p_ in parts)
+        ok = iff is not None and _negated_in(iff.test) and any(
             isinstance(s_, ast.Return) and isinstance(s_.value, ast.Constant) and s_.value.value is False for s_ in iff.body)
         # ... or the conjunction form: `return all(limits.ok(...) for limits in ...)`
         if not ok:
@@ -396,9 +400,37 @@ def run(ctx: Ctx):
             if isinstance(x, (ast.GeneratorExp, ast.ListComp, ast.SetComp)):
                 out |= {norm(gen.iter) for gen in x.generators}
         return out
-    src_ok = _sources(lok)
-    src_inc = _sources(linc)
-    ok = src_ok == src_inc == {"self.getAllLimits()"}
+    def _walks_up(fn):
+        """the function visits this task and every ancestor: `v = self.property; while v [is not None]: .. v.get('limits', ..) .. v = v.parent`"""
+        for w in own_nodes(fn):
+            if not (isinstance(w, ast.While) and not w.orelse):
+                continue
+            t = w.test
+            v = t.id if isinstance(t, ast.Name) else (t.left.id if isinstance(t, ast.Compare) and isinstance(t.left, ast.Name) and len(t.ops) == 1
+                                                      and isinstance(t.ops[0], ast.IsNot) and norm(t.comparators[0]) == "None" else None)
+            if v is None or any(isinstance(x, ast.Break) for x in ast.walk(w)):
+                continue
+            inits = [d for d in own_nodes(fn) if isinstance(d, (ast.Assign, ast.AnnAssign)) and d.value is not None and d.lineno < w.lineno
+                     and any(isinstance(t_, ast.Name) and t_.id == v for t_ in (d.targets if isinstance(d, ast.Assign) else [d.target]))]
+            steps = [d for d in ast.walk(w) if isinstance(d, ast.Assign) and any(isinstance(t_, ast.Name) and t_.id == v for t_ in d.targets)]
+            reads = [c for c in ast.walk(w) if isinstance(c, ast.Call) and isinstance(c.func, ast.Attribute) and c.func.attr == "get"
+                     and norm(c.func.value) == v and c.args and const_str(c.args[0]) == "limits"]
+            if inits and norm(max(inits, key=lambda d: d.lineno).value) == "self.property" and steps \
+                    and all(norm(d.value) == f"{v}.parent" for d in steps) and reads:
+                return True
+        return False
+    gal = ctx.repo.func("TaskScenario.getAllLimits")
+
+    def _family(fn):
+        srcs = _sources(fn)
+        if srcs == {"self.getAllLimits()"}:
+            return "task and ancestors" if _walks_up(gal) else "getAllLimits (not a walk up the parents)"
+        if not srcs and _walks_up(fn):
+            return "task and ancestors"
+        return f"other: {sorted(srcs)}"
+    src_ok = {_family(lok)}
+    src_inc = {_family(linc)}
+    ok = src_ok == src_inc == {"task and ancestors"}
     ctx.ob("R05.1", f"task limits: checked over {sorted(src_ok)}, incremented over {sorted(src_inc)}", lok, ok,
            "task + ancestor limits are both consulted and counted" if ok else "task-limit check and increment enumerate different holders",
            key="R05.1|task|enumeration")
